@@ -71,11 +71,19 @@ theorem Pres.of_onlyMembership {α} {P : State → Prop} (hP : IgnoresMembership
 
 /-- leaf obligations of an invariant that looks at neither membership nor the backlogs -/
 theorem Base.of_frame {E : Env} {P : State → Prop} (hM : IgnoresMembership P) (hB : IgnoresBacklogs P)
+    (startProbe : ∀ m, Pres P (modS fun s => { s with probe := s.probe.start m }))
     (modCtl : ∀ f, CtlKeep f → Pres P (modS f))
-    (modCustom : ∀ f, CustomOnly f → Pres P (modS f)) : Base E P where
-  membersApply := fun u => Pres.of_onlyMembership hM (membersApply_only u)
-  membersApplyExistingIf := fun u cond => Pres.of_onlyMembership hM (membersApplyExistingIf_only u cond)
-  membersNext := Pres.of_onlyMembership hM membersNext_only
+    (modCustom : ∀ f, CustomOnly f → Pres P (modS f)) : Base E P (fun _ => True) where
+  okDown := fun _ _ => trivial
+  membersApply := fun u _ => Pres.of_onlyMembership hM (membersApply_only u)
+  membersApplyExistingIf := fun u cond _ => Pres.of_onlyMembership hM (membersApplyExistingIf_only u cond)
+  membersNext := ⟨fun c hc => by
+    have := (Pres.of_onlyMembership hM membersNext_only).run c hc
+    cases hm : Foca.membersNext c with
+    | stuck x => trivial
+    | err e c' => rw [hm] at this; exact this
+    | ok a c' => rw [hm] at this; exact ⟨this, fun _ _ => trivial⟩⟩
+  startProbe := fun m _ => startProbe m
   removeDown := fun id => Pres.modS_of (fun s hs => hM _ _ (by simp only [OnlyMembership]) hs)
   sendMessage := Pres.sendMessage E hB
   addUpdate := fun m => by
